@@ -359,9 +359,119 @@ def emit_root():
     write_if_changed(os.path.join(C.LEAN, "SuplaVerif.lean"), "".join("import %s\n" % m for m in sorted(mods)))
 
 
+def split_args(txt):
+    """split a C argument list at top-level commas"""
+    out, depth, cur, instr = [], 0, "", False
+    i = 0
+    while i < len(txt):
+        ch = txt[i]
+        if instr:
+            cur += ch
+            if ch == "\\":
+                cur += txt[i + 1]
+                i += 1
+            elif ch == '"':
+                instr = False
+        elif ch == '"':
+            instr = True
+            cur += ch
+        elif ch in "([{":
+            depth += 1
+            cur += ch
+        elif ch in ")]}":
+            depth -= 1
+            cur += ch
+        elif ch == "," and depth == 0:
+            out.append(cur.strip())
+            cur = ""
+        else:
+            cur += ch
+        i += 1
+    if cur.strip():
+        out.append(cur.strip())
+    return out
+
+
+PAGE_VARIANTS = [
+    ("supla_default", "src/user/supla_esp_cfgmode_html.c", "base", []),
+    ("supla_default_nofota", "src/user/supla_esp_cfgmode_html.c", "base", ["-U__FOTA"]),
+    ("supla_cfgbtn", "src/user/supla_esp_cfgmode_html.c", "base", ["-DCFGBTN_TYPE_SELECTION"]),
+    ("supla_cfgbtn_nofota", "src/user/supla_esp_cfgmode_html.c", "base", ["-DCFGBTN_TYPE_SELECTION", "-U__FOTA"]),
+    ("supla_btn12", "src/user/supla_esp_cfgmode_html.c", "base", ["-DBTN1_2_TYPE_SELECTION"]),
+    ("supla_btn12_nofota", "src/user/supla_esp_cfgmode_html.c", "base", ["-DBTN1_2_TYPE_SELECTION", "-U__FOTA"]),
+    ("mqtt", "src/user/supla_esp_cfgmode_mqtt_html.c", "mqtt", ["-DMQTT_SUPPORT_ENABLED"]),
+]
+CFG_FIELDS = ["TAG", "GUID", "AuthKey", "Server", "Email", "Username", "LocationID", "Port", "LocationPwd", "Password",
+              "WIFI_SSID", "WIFI_PWD", "CfgButtonType", "Button1Type", "Button2Type", "StatusLedOff", "InputCfgTriggerOff",
+              "FirmwareUpdate", "Test", "UpsideDown", "MotorUpsideDown", "Time1", "Time2", "Trigger", "Flags",
+              "MqttTopicPrefix", "MqttQoS", "OvercurrentThreshold1", "OvercurrentThreshold2", "MqttPoolPublicationDelay",
+              "AutoCalOpenTime", "AutoCalCloseTime", "StaircaseButtonType", "ButtonType", "ButtonMode",
+              "CleanConfigSignature", "Time3", "ButtonsUpsideDown", "Tilt0Angle", "Tilt100Angle", "TiltControlType",
+              "AdditionalTimeMargin", "zero"]
+
+
+def gen_html():
+    rows = []
+    for name, rel, variant, extra in PAGE_VARIANTS:
+        r = C.sh(["gcc", "-E", "-P", "-w"] + C.fw_flags(variant) + extra + [os.path.join(C.REPO, rel)])
+        if r.returncode != 0:
+            raise ExtractError("cannot preprocess %s (%s): %s" % (rel, name, r.stderr[-1500:]))
+        t = r.stdout
+        calls = []
+        for m in re.finditer(r"ets_snprintf\s*\(", t):
+            depth, j = 1, m.end()
+            while depth and j < len(t):
+                depth += t[j] == "("
+                depth -= t[j] == ")"
+                j += 1
+            calls.append(t[m.end():j - 1])
+        if not calls:
+            raise ExtractError("page variant %s: no ets_snprintf call found" % name)
+        fields, others = [], []
+        for c in calls:
+            args = split_args(c)[2:]      # buffer, size, then template + arguments
+            for a in args:
+                refs = re.findall(r"supla_esp_cfg\.(\w+)", a)
+                if refs:
+                    for f in refs:
+                        if f not in CFG_FIELDS:
+                            raise ExtractError("page variant %s: unknown config field %s" % (name, f))
+                        fields.append(f)
+                elif "supla_esp_cfg" in a or "supla_esp_state" in a and "laststate" not in a:
+                    raise ExtractError("page variant %s: argument reads the whole config: %s" % (name, a[:80]))
+                else:
+                    others.append(re.sub(r"\s+", " ", a)[:40])
+        # any other access to the config record in the page builder file (e.g. the buffer-length sum)
+        inside = sum(len(re.findall(r"supla_esp_cfg\.(\w+)", c)) for c in calls)
+        allrefs = re.findall(r"supla_esp_cfg\.(\w+)", t)
+        other = [f for f in allrefs if f in CFG_FIELDS]
+        for f in allrefs:
+            if f not in CFG_FIELDS:
+                raise ExtractError("page variant %s: unknown config field %s" % (name, f))
+        rows.append((name, fields, sorted(set(other))))
+    L = ["/- GENERATED by tools/extract.py from supla_esp_cfgmode_html.c / supla_esp_cfgmode_mqtt_html.c:",
+         "   for every page variant, the configuration fields that appear in the argument lists of the",
+         "   ets_snprintf calls that build the page - do not edit -/",
+         "import SuplaVerif.Model.Page",
+         "namespace SuplaVerif.Gen",
+         "",
+         "def pageArgs : List (String × List CfgField) := ["]
+    L.append(",\n".join("  (\"%s\", [%s])" % (n, ", ".join(".%s" % f for f in fs)) for n, fs, _ in rows))
+    L += ["]", "", "/-- every configuration field the page-builder file reads anywhere (also outside argument lists) -/",
+          "def pageAllRefs : List (String × List CfgField) := ["]
+    L.append(",\n".join("  (\"%s\", [%s])" % (n, ", ".join(".%s" % f for f in o)) for n, _, o in rows))
+    L += ["]", "", "end SuplaVerif.Gen", ""]
+    write_if_changed(os.path.join(GEN, "Html.lean"), "\n".join(L))
+    # the field enumeration used by Model/Page.lean is fixed; check it is what the struct has
+    k = run_probe("p_cfgfields", "\n".join('P("f_%s", sizeof(((SuplaEspCfg*)0)->%s));' % (f, f) for f in CFG_FIELDS),
+                  variant="mqtt", includes_c=["supla_esp.h", "supla_esp_cfg.h"], extra_flags=["-DMQTT_SUPPORT_ENABLED"])
+    return rows
+
+
 def main_quiet():
     emit_consts()
     gen_getdata()
+    gen_html()
     emit_root()
 
 
